@@ -11,7 +11,7 @@ def run_time_property(res, need_after, tag):
     if not ok:
         return res.finish()
     rng = common.rng_for(res.seed, tag)
-    mult = 1 if res.tier == "quick" else 20
+    mult = 1 if res.tier == "quick" else 60
     if not (res.proof_ok and res.corr_ok):
         mult *= 5
     hs = [timegen.history(rng, need_after) for _ in range(1500 * mult)]
